@@ -285,6 +285,17 @@ class Script(object):
     def raw(self, data):
         if self.enc is not None:
             data = self.enc.encrypt(data)
+        cut = getattr(self, 'cut_after', None)
+        if cut is not None:
+            room = cut - self.session.s2c_total
+            if len(data) >= room:
+                # the server stops here: send what fits, close, abandon the rest of the script
+                if room > 0:
+                    self.session.send(data[:room])
+                self.session.close()
+                self.pc = len(self.steps)
+                self.cut_done = True
+                return
         self.session.send(data)
 
     def pump(self):
